@@ -4,6 +4,8 @@
 budget=${1:-45}; only=${2:-S}
 cd "$(dirname "$0")/.."
 if ! git -C /repo diff --quiet; then echo "/repo has uncommitted changes" >&2; exit 2; fi
+rm -rf out/evidence.keep && cp -r evidence out/evidence.keep
+trap 'git -C /repo checkout -- . ; rm -rf evidence; mv out/evidence.keep evidence' EXIT
 for d in seeded/${only}*/; do
   id=$(basename $d); prop=$(python3 -c "import json;print(json.load(open('$d/meta.json'))['property'])")
   git -C /repo apply --check $d/patch.diff 2>/dev/null || { echo "$id $prop PATCH-DOES-NOT-APPLY"; continue; }
